@@ -643,7 +643,7 @@ func RefAlt(in map[string]any) map[string]any {
 }
 
 func (m *Model) outcomeFor(stepID, key string) string {
-	if o, ok := m.Observed[stepID]; ok {
+	if o, ok := m.Observed[key]; ok {
 		return o
 	}
 	b, ok := m.Script.Steps[key]
@@ -675,13 +675,22 @@ func (m *Model) evalPlugin(s *Step) {
 	fate := &StepFate{}
 	m.Fates[s.ID] = fate
 	id := s.ID
-	done := func(rest Status) { m.finalize(id, pluginStages, pluginOutputs, rest) }
+	waiting := false // true while the step sits waiting for input it will never get
+	done := func(rest Status) {
+		if waiting && m.Observed["closed-at-shutdown:"+id] != "" {
+			// observed: the step never executed; when the run was shut down it was closed while
+			// waiting, which produces closed.result (DESIGN 13.2)
+			m.produce(id, "closed", "result", map[string]any{"cancelled": false, "close_requested": true})
+		}
+		m.finalize(id, pluginStages, pluginOutputs, rest)
+	}
 	// the cancelled stage never completes as a stage
 	m.set(id, "cancelled", Dead)
 
 	// deploy
 	switch st := m.valStatus(s.DeployTag); st {
 	case Dead, Pending:
+		waiting = true
 		done(st)
 		return
 	}
@@ -708,6 +717,7 @@ func (m *Model) evalPlugin(s *Step) {
 	// enabling
 	switch st := m.valStatus(s.Enabled); st {
 	case Dead, Pending:
+		waiting = true
 		done(st)
 		return
 	}
@@ -731,6 +741,7 @@ func (m *Model) evalPlugin(s *Step) {
 	// starting
 	st := worst(worst(m.valStatus(s.Input), m.valStatus(s.WaitFor)), m.valStatus(s.ClosureTimeoutMs))
 	if st != Produced {
+		waiting = true
 		done(st)
 		return
 	}
@@ -842,7 +853,7 @@ func (m *Model) evalForeach(s *Step) {
 	pending := false
 	for i, it := range items {
 		itemIn, _ := it.(map[string]any)
-		im := NewModel(sub, m.Subs, NormalizeInput(sub, itemIn), m.Script, nil)
+		im := NewModel(sub, m.Subs, NormalizeInput(sub, itemIn), m.Script, m.Observed)
 		fate.ItemModels = append(fate.ItemModels, im)
 		switch {
 		case im.OutStatus["success"] == Produced && im.OutFault["success"] == nil && onlyProducible(im, "success"):
